@@ -552,7 +552,35 @@ def inline_value_calls(p: Program, f: Function, depth: int = 2, keep=()) -> Func
 
     def expand(stmts, module, d):
         out = []
-        for st in stmts:
+        stmts = list(stmts)
+        k_ = 0
+        while k_ < len(stmts):
+            st = stmts[k_]
+            k_ += 1
+            # a helper called in a loop header, a test or as a bare statement is first bound to a fresh local
+            hoist = None
+            if d > 0 and isinstance(st, ast.For) and isinstance(st.iter, ast.Call):
+                hoist = ("iter", st.iter)
+            elif d > 0 and isinstance(st, ast.If) and isinstance(st.test, ast.Call):
+                hoist = ("test", st.test)
+            elif d > 0 and isinstance(st, ast.Expr) and isinstance(st.value, ast.Call):
+                hoist = ("value", st.value)
+            if hoist is not None and helper_of(hoist[1], module)[0] is not None:
+                counter[0] += 1
+                tmp = f"_call{counter[0]}"
+                bind = ast.Assign(targets=[ast.Name(id=tmp, ctx=ast.Store())], value=hoist[1])
+                for sub in ast.walk(bind):
+                    if not hasattr(sub, "lineno"):
+                        ast.copy_location(sub, st)
+                ast.copy_location(bind, st)
+                if hoist[0] == "value":
+                    stmts[k_ - 1:k_] = [bind]
+                else:
+                    st2 = copy.copy(st)
+                    setattr(st2, hoist[0], ast.copy_location(ast.Name(id=tmp, ctx=ast.Load()), hoist[1]))
+                    stmts[k_ - 1:k_] = [bind, st2]
+                k_ -= 1
+                continue
             call = None
             if d > 0 and isinstance(st, ast.Assign) and isinstance(st.value, ast.Call):
                 call = st.value
